@@ -161,7 +161,12 @@ static Outcome runCase(const KV& c)
                 yn = std::max(yn, std::fabs(y[i]));
             kinv = std::max(kinv, yn / vn);
         }
-        const double kappa = std::max(1.0, kinv * knorm);
+        // The rounding residual eps*|A||u| of the exact solution is amplified by the cycle like by A_h^{-1} of the FINEST
+        // level; the direct solver exists on the coarsest level only, and with the finite-volume scaling of this code
+        // ||A_l|| is level independent while ||A_l^{-1}|| grows like h^-2, i.e. by a factor 4 per level.
+        // (False alarm of seed sweep 5: the bound used the coarsest level's condition number, 15 on a 5x8 grid, for a
+        // 33x64 finest grid; see DESIGN.md 10.1.)
+        const double kappa = std::max(1.0, kinv * knorm) * std::pow(4.0, nl - 1);
         const double tol   = 1e3 * EPS * kappa * scale;
         double d = 0;
         for (int i = 0; i < n; i++)
